@@ -670,3 +670,58 @@ PROPS["C06"] = {
     "rule": GW_RULE + " (broker message IDs are drawn from the live client exchanges a quarter of the time; two corpus witnesses run first); " + CL_RULE,
     "assumptions": GW_ASSUME + CL_ASSUME,
 }
+
+TIMED_ASSUME = GW_ASSUME + ["the model's clock is not stuck: no advance exhausts the fuel of run_timers (executable condition clock_ok; "
+                            "generated advances are far below the cap)"]
+PROPS.update({
+    "C10": gw_prop(["C10_all_histories"], [r"^(END|CLOSE|SNCLOSE|TIME)", r"EXTRA (END|CLOSE)", r"MISSING (END|CLOSE)", r"SN:Disconnect", r"PANIC", r"MISSING-"], TIMED_ASSUME[3:]),
+    "C13": gw_prop(["C13_all_histories"], [r"^(END|CLOSE|SNCLOSE|TIME|LEAK)", r"EXTRA (END|CLOSE)", r"MISSING (END|CLOSE)", r"SN:Disconnect", r"PANIC", r"MISSING-"], TIMED_ASSUME[3:]),
+    "C34": gw_prop(["C34_refuted", "C34_partial"], [r"MQ:PINGREQ", r"MQ:(PUBACK|PUBREC|PUBCOMP)", r"TIME", r"^(END|CLOSE)", r"PANIC", r"MISSING-"],
+                   TIMED_ASSUME[3:] + ["the broker of the property's hypothesis (drops a connection without CONNECT or silent for 1.5 x keep-alive) is "
+                                       "represented by broker-EOF events of the vanish profile; the monitor checks that nothing keeps the connection alive"]),
+    "C12": gw_prop(["C12_refuted_local_traffic", "C12_refuted_sleep_not_longer_than_keepalive", "C12_refuted_first_ping_late",
+                    "C12_partial_pingreq", "C12_partial_pinger_fires"],
+                   [r"MQ:", r"TIME", r"PANIC", r"MISSING-"], TIMED_ASSUME[3:]),
+})
+
+
+def unit_e2e(ctx):
+    """Real Client + real gateway session + scripted conforming broker over a lossy in-memory link
+    (drv_e2e) against the composed model (System/Compose.v); C16 / C26 monitor on the implementation."""
+    d = core.shared_dir("e2e", ctx.tier, ctx.seed)
+    res, hist, trace = os.path.join(d, "e2e.res"), os.path.join(d, "e2e.hist"), os.path.join(d, "e2e.impl")
+    if not cached(res):
+        n = budget(ctx, 1800, 36000)
+        rc, out, _ = core.run("%s gen-e2e %d %d %s" % (core.DRIVER, ctx.seed + 26, n, hist))
+        if rc != 0:
+            return {"lines": [], "error": "gen-e2e failed: " + out[-2000:]}
+        err = run_sharded(ctx.bin("drv_e2e.test"), hist, trace, "drv_e2e")
+        if err:
+            return {"lines": [], "error": err}
+        rc, out, _ = core.run("%s cmp-e2e %s %s > %s.tmp && mv %s.tmp %s" % (core.DRIVER, hist, trace, res, res, res))
+        if rc != 0:
+            return {"lines": [], "error": "cmp-e2e failed: " + out[-2000:]}
+    return {"lines": open(res).read().splitlines(), "inputs": hist}
+
+
+E2E_RULE = ("model-guided API programs (ocaml/gen_e2e.ml: connect, register, publish at every QoS on registered / short / "
+            "predefined topics, subscribe incl. wildcards, unsubscribe, ping, sleep cycles, disconnect; broker-originated "
+            "publishes QoS 0-2 on subscribed topics incl. bursts and new topics under wildcards; 6 profiles: lossless, "
+            "sleep+bursts, faults within the retry budget, authentication, heavy loss, mixed) run on the REAL client.Client and "
+            "the REAL gateway session in one synctest bubble with a scripted conforming broker and a link that drops / "
+            "duplicates the k-th datagram of each direction as the history's fault list says; compared channel by channel "
+            "(link directions, broker in/out, API returns, handler invocations; virtual ms) with the composed model")
+E2E_ASSUME = ["event-atomic driving (synctest.Wait after every API call start / broker publish / time advance)",
+              "client KeepAlive = 60000 s: the keep-alive loop of the client (not in the client model) never ticks within a history",
+              "termination of the gateway session is compared as a fact only (end times are C13's)",
+              "histories with two deadlines of the system at one virtual instant are not generated"]
+PROPS["C16"] = {
+    "theorems": ["C16_retransmission_is_the_same_packet_with_DUP", "C16_gateway_stops_after_RetryCount",
+                 "C16_client_answers_every_PUBREL"],
+    "drivers": ["drv_e2e.test", "drv_gw.test", "drv_client.test"],
+    "units": [Unit("drv_e2e", unit_e2e), Unit("drv_gw", unit_gw), Unit("drv_client", unit_client)],
+    "mismatch_kinds": [r"^(C2G|G2C|BR|BS|CB|RET)", r"EXTRA (C2G|G2C|BR|BS)", r"MISSING (C2G|G2C|BR|BS)",
+                       r"SN:(Publish|Register|Pubrel|Pubrec|Pubcomp|Puback)", r"MQ:(PUBACK|PUBREC|PUBCOMP)", r"PANIC", r"MISSING-"],
+    "rule": E2E_RULE + "; " + GW_RULE,
+    "assumptions": E2E_ASSUME + GW_ASSUME,
+}
